@@ -184,10 +184,18 @@ def _sh(lst, n=12):
 
 def _check_crossings(ctx, a, arg, default_too=False):
     for keep in (False, True):
-        got = _ints(ctx, ctx.lib(pc.get_zero_crossings_array_indices, arg, keep_adj_zeros=keep), "crossings")
+        raw = ctx.lib(pc.get_zero_crossings_array_indices, arg, keep_adj_zeros=keep)
+        got = _ints(ctx, raw, "crossings")
         want = ref.zero_crossings(a, keep)
         if got != want:
             ctx.fail("zero crossings (keep_adj_zeros=%s): got %s, expected %s" % (keep, _sh(got), _sh(want)))
+        # the answer belongs to the caller: shifting it in place (e.g. to a window offset) must not influence later calls
+        if isinstance(raw, np.ndarray) and raw.flags.writeable and raw.size:
+            raw += 7
+            again = _ints(ctx, ctx.lib(pc.get_zero_crossings_array_indices, arg, keep_adj_zeros=keep), "crossings")
+            if again != want:
+                ctx.fail("zero crossings (keep_adj_zeros=%s) changed after the caller edited the previous result in place: "
+                         "got %s, expected %s" % (keep, _sh(again), _sh(want)))
     if default_too:
         got = _ints(ctx, ctx.lib(pc.get_zero_crossings_array_indices, arg), "crossings")
         want = ref.zero_crossings(a, False)
@@ -196,7 +204,13 @@ def _check_crossings(ctx, a, arg, default_too=False):
 
 
 def _check_switched(ctx, a, arg):
-    got = _ints(ctx, ctx.lib(pc.get_switched_peak_array_indices, arg), "switched peaks")
+    raw = ctx.lib(pc.get_switched_peak_array_indices, arg)
+    got = _ints(ctx, raw, "switched peaks")
+    if isinstance(raw, np.ndarray) and raw.flags.writeable and raw.size:
+        raw += 7  # the answer belongs to the caller: editing it in place must not influence a later call
+        again = _ints(ctx, ctx.lib(pc.get_switched_peak_array_indices, arg), "switched peaks")
+        if again != got:
+            ctx.fail("switched peaks changed after the caller edited the previous result in place: %s then %s" % (_sh(got), _sh(again)))
     v = a.tolist()
     canon = ref.switched_peaks(v)
     msg = ref.switched_violation(v, got)
